@@ -172,6 +172,8 @@ pub enum OutKind {
     StMode,
     /// wait4: the status word
     WaitStatus,
+    /// accept4: the peer address length the kernel reports through its in/out pointer
+    AddrLen,
     /// getdents64: d_type of every returned record
     DentsType,
     /// io_uring_setup: IORING_FEAT_SINGLE_MMAP cleared in params.features (the legacy two-mmap layout)
@@ -216,6 +218,7 @@ impl Ans {
                     "StSize" => OutKind::StSize,
                     "StMode" => OutKind::StMode,
                     "WaitStatus" => OutKind::WaitStatus,
+                    "AddrLen" => OutKind::AddrLen,
                     "DentsType" => OutKind::DentsType,
                     "UringNoSingleMmap" => OutKind::UringNoSingleMmap,
                     _ => return None,
@@ -326,6 +329,13 @@ fn deviations(c: &CallInfo) -> Vec<Ans> {
             if a[1] != 0 {
                 for x in [0i64, 256, 9] {
                     v.push(Ans::Out(OutKind::WaitStatus, x));
+                }
+            }
+        }
+        SYS_accept4 | SYS_accept => {
+            if a[1] != 0 && a[2] != 0 {
+                for x in [0i64, 2, 110, 111, 112, 4096] {
+                    v.push(Ans::Out(OutKind::AddrLen, x));
                 }
             }
         }
@@ -465,6 +475,11 @@ impl Plan for FdPlan {
                         let b = stat_buf(c.nr, &c.args);
                         if b != 0 {
                             ((b + 24) as *mut u32).write_unaligned(v as u32);
+                        }
+                    }
+                    OutKind::AddrLen => {
+                        if c.args[2] != 0 {
+                            (c.args[2] as *mut u32).write_unaligned(v as u32);
                         }
                     }
                     OutKind::WaitStatus => {
